@@ -4,7 +4,7 @@ from gen import common, framing, ux, api
 
 # the framing theorems (C01) are relative to the byte-stream contract of the layer below and speak about the non-blocking calls:
 # the TLS byte stream's side of that contract (C02btls) and the blocking wrappers of xcm.c (C03) are re-checked here too
-LEAN_MODULE = ["XcmModel.Props.C01", "XcmModel.Props.C02", "XcmModel.Props.C03"]
+LEAN_MODULE = ["XcmModel.Props.C01", "XcmModel.Props.C02", "XcmModel.Props.C03", "XcmModel.Props.Utls"]
 THEOREMS = [
     "XcmModel.Wire.frames_prefix", "XcmModel.Wire.eq_frame_of_complete",
     "XcmModel.Framing.tfs_spec", "XcmModel.Framing.bufferMsg_spec",
@@ -15,6 +15,7 @@ THEOREMS = [
     "XcmModel.C02btls.C02_btls_accepted_is_written_plus_retained", "XcmModel.C02btls.C02_btls_send_accepts_prefix",
     "XcmModel.C02btls.C02_btls_retry_discipline", "XcmModel.C03btls.C03_btls_finish_success_means_flushed",
     "XcmModel.C03.C03_blocking_send_no_false_failure", "XcmModel.C03.C03_blocking_send_accepted_once",
+    "XcmModel.UtlsProps.C01_utls_pure_delegation", "XcmModel.UtlsProps.utls_active_is_the_one_left", "XcmModel.UtlsProps.C08_utls_connect_balanced",
 ]
 
 
@@ -59,6 +60,10 @@ def run(ctx):
         if ctx.over_budget():
             break
     ctx.rule += "; unit_api: the real xcm.c wrappers in blocking and non-blocking mode over a scripted transport and poll() (EINTR between acceptance and flush included) vs the Lean Api model"
+    # utls: a connection is exactly one UX or TLS sub-connection; every data-path call is handed to it unchanged
+    from gen import utls as _utls
+    _utls.run_part(ctx, 30 if quick else 1500, label="c01utls")
+    ctx.rule += "; unit_utls: the real xcm_tp_utls.c over logging mock sub-transports vs the Lean Utls model (pure delegation to the one sub-socket left)"
     ux.run_part(ctx, 30 if quick else 1500, "c01")
     ctx.rule += "; unit_ux: the real ux_send/ux_receive/ux_update of xcm_tp_ux.c with scripted kernel send()/recv() (record accepted / EAGAIN / EINTR / errors; records of any size against any capacity) vs the Lean Ux model + monitor"
 
